@@ -19,16 +19,26 @@ pub fn expand(input: &DeriveInput, trait_name: &str) -> TokenStream {
         Data::Struct(ref data_struct) => match data_struct.fields {
             Fields::Unnamed(ref fields) => (
                 quote! { #input_type #ty_generics },
-                tuple_content(input_type, &unnamed_to_vec(fields), &method_ident),
+                tuple_content(
+                    input_type,
+                    &unnamed_to_vec(fields),
+                    &trait_ident,
+                    &method_ident,
+                ),
             ),
             Fields::Named(ref fields) => (
                 quote! { #input_type #ty_generics },
-                struct_content(input_type, &named_to_vec(fields), &method_ident),
+                struct_content(
+                    input_type,
+                    &named_to_vec(fields),
+                    &trait_ident,
+                    &method_ident,
+                ),
             ),
             _ => panic!("Unit structs cannot use derive({trait_name})"),
         },
         Data::Enum(ref data_enum) => {
-            enum_output_type_and_content(input, data_enum, &method_ident)
+            enum_output_type_and_content(input, data_enum, &trait_ident, &method_ident)
         }
 
         _ => panic!("Only structs and enums can use derive({trait_name})"),
@@ -53,14 +63,17 @@ pub fn expand(input: &DeriveInput, trait_name: &str) -> TokenStream {
 fn tuple_content<T: ToTokens>(
     input_type: &T,
     fields: &[&Field],
+    trait_ident: &Ident,
     method_ident: &Ident,
 ) -> TokenStream {
     let mut exprs = vec![];
 
     for i in 0..fields.len() {
         let i = Index::from(i);
-        // generates `self.0.add()`
-        let expr = quote! { self.#i.#method_ident() };
+        // generates `Not::not(self.0)`
+        let expr = quote! {
+            derive_more::core::ops::#trait_ident::#method_ident(self.#i)
+        };
         exprs.push(expr);
     }
 
@@ -70,6 +83,7 @@ fn tuple_content<T: ToTokens>(
 fn struct_content(
     input_type: &Ident,
     fields: &[&Field],
+    trait_ident: &Ident,
     method_ident: &Ident,
 ) -> TokenStream {
     let mut exprs = vec![];
@@ -77,8 +91,10 @@ fn struct_content(
     for field in fields {
         // It's safe to unwrap because struct fields always have an identifier
         let field_id = field.ident.as_ref();
-        // generates `x: self.x.not()`
-        let expr = quote! { #field_id: self.#field_id.#method_ident() };
+        // generates `x: Not::not(self.x)`
+        let expr = quote! {
+            #field_id: derive_more::core::ops::#trait_ident::#method_ident(self.#field_id)
+        };
         exprs.push(expr)
     }
 
@@ -88,12 +104,14 @@ fn struct_content(
 fn enum_output_type_and_content(
     input: &DeriveInput,
     data_enum: &DataEnum,
+    trait_ident: &Ident,
     method_ident: &Ident,
 ) -> (TokenStream, TokenStream) {
     let input_type = &input.ident;
     let (_, ty_generics, _) = input.generics.split_for_impl();
     let mut matches = vec![];
-    let mut method_iter = iter::repeat(method_ident);
+    let method = quote! { derive_more::core::ops::#trait_ident::#method_ident };
+    let mut method_iter = iter::repeat(&method);
     // If the enum contains unit types that means it can error.
     let has_unit_type = data_enum.variants.iter().any(|v| v.fields == Fields::Unit);
 
@@ -109,7 +127,7 @@ fn enum_output_type_and_content(
                 let vars: &Vec<_> =
                     &(0..size).map(|i| format_ident!("__{i}")).collect();
                 let method_iter = method_iter.by_ref();
-                let mut body = quote! { #subtype(#(#vars.#method_iter()),*) };
+                let mut body = quote! { #subtype(#(#method_iter(#vars)),*) };
                 if has_unit_type {
                     body = quote! { derive_more::core::result::Result::Ok(#body) }
                 }
@@ -135,7 +153,7 @@ fn enum_output_type_and_content(
                     &(0..size).map(|i| format_ident!("__{i}")).collect();
                 let method_iter = method_iter.by_ref();
                 let mut body = quote! {
-                    #subtype{#(#field_names: #vars.#method_iter()),*}
+                    #subtype{#(#field_names: #method_iter(#vars)),*}
                 };
                 if has_unit_type {
                     body = quote! { derive_more::core::result::Result::Ok(#body) }
